@@ -2,23 +2,8 @@
 from ekw import ctrl_check
 
 PROPERTY = "C02"
-LEVEL_TEXT = ("Lean theorems over the small-step system controller x abstract executors (Model/Ctrl.lean) and its extension by the control flow of assign() "
-              "(Model/Sched.lean): in every reachable state, for every job, cluster, admissible heuristic choice and event order/batching, each task is named by at "
-              "most one task_sequence command (exactly one once its completion was seen), sent to a worker that exists, is free and satisfies the GPU requirement, "
-              "with every input already produced and present on the target host or in an outstanding transfer to it (all C02 monitors never fire; InvAll). The GPU / "
-              "free-worker clauses are derived from the REAL mechanism, not from the validation of an oracle value: every (task, worker) pair the control flow of "
-              "assign_within_component/_assignment_heuristic can yield (GPU partition gpu_t/gpu_w, then cpu_t/cpu_w + idle gpu workers) is admissible, so the "
-              "validation in the model never rejects what the code produces (c02_assign_admissible, c02_filter_never_rejects, c02_dispatch_by_control_flow). 'Not "
-              "already busy' at full strength: a worker has at most one task in flight (c02_worker_single_flight); with non-atomic bodies an idle worker has nothing "
-              "queued AND no body running, and no second body ever starts on a worker (c02_idle_means_free_running, c02_no_second_body); every input of a computable "
-              "or dispatched task has really been published (c02_inputs_published). Worker side (Model/Worker.lean = runner/entrypoint.py wait loop): for every "
-              "message interleaving the worker enters execute_sequence only after a DatasetPublished notice for every required dataset (c02_worker_waits; bookkeeping "
-              "of availab_ds/missing_ds/waiting_ts: c02_worker_bookkeeping, c02_worker_avail_partial/_full_fails). Executor layer (Model/ExecLayer.lean = worker "
-              "publish, executor fan-out and purge filter, data-server store, worker loop composed): at every entry into execute_sequence every required dataset "
-              "had been completely WRITTEN into this host's shm before (c02_exec_inputs_arrived), is readable while the controller traffic keeps the C04 "
-              "discipline (c02_exec_inputs_readable, _full_fails), every announcement anywhere names a dataset written before (c02_exec_announced_after_write), "
-              "a worker only runs sequences addressed to it (c02_exec_named_worker), GPU worker i sees exactly device i (c02_gpu_own_device/_exclusive/_registered). ")
-LEVEL_NOTE = ("modelled, not verified: scheduler/api.py initialize/plan, scheduler/assign.py build_assignment + the pops of _assignment_heuristic, controller/act.py act/flush_queues, controller/notify.py notify/consider_*, impl.run loop skeleton (Model/Ctrl.lean, one Lean function per Python function). Abstracted as an oracle argument validated for admissibility by the model and supplied from what the real run chose: which (idle worker, computable task) pairs the distance/overhead heuristics and host->component migration pick per round, and which `available` host is the transmit source; theorems quantify over all admissible choices. Executors are abstract (Env + the non-atomic layer Model/CtrlN.lean; SimBridge mirrors both): a dispatched task starts once its inputs are in its host's store and publishes its outputs in index order, one step per output, interleaved with everything else; transmit/fetch read the source store; purge is immediate. Hypothesis WF: tasks topologically numbered, inputs duplicate-free, >=1 output per task, requested outputs exist, worker ids distinct (the generator guarantees it). Worker model: availab_ds/missing_ds/waiting_ts bookkeeping of entrypoint(), driven in-process with fake zmq/Memory; `required` is computed by the harness as the code does. Since the audit response: the (task, worker) pair is no longer only validated - theorems over the extended system (Model/Sched.lean) show that the modelled control flow of assign() yields admissible pairs only; SimBridge counts a started body as busy and starts one body per worker at a time; commands are compared with their publish sets. Executor layer (Model/ExecLayer.lean, Props/C02Exec.lean, tie harness/ekw/c02_exec.py: the real Executor, worker entrypoint and data-server handlers of one host driven in-process over fake sockets under generated schedules): fan-out of DatasetPublished/DatasetPurge, purge filter, CUDA_VISIBLE_DEVICES and 'announcement implies bytes are in shm' are modelled there; a handler of the executor and what a worker does between two pause points are atomic in that model (assumption), c02_exec_inputs_readable is conditional on the controller discipline C04 proves (not composed in Lean), reads inside execute_sequence and soundness of the purge filter are judged by the oracle only.")
+LEVEL_TEXT = ("Lean theorems over the small-step system controller x abstract executors (Model/Ctrl.lean) and its extension by the control flow of assign() (Model/Sched.lean): in every reachable state, for every job, cluster, admissible heuristic choice and event order/batching, each task is named by at most one task_sequence command (exactly one once its completion was seen), sent to a worker that exists, is free and satisfies the GPU requirement, with every input already produced and present on the target host or in an outstanding transfer to it (all C02 monitors never fire; InvAll). The GPU / free-worker clauses are derived from the REAL mechanism, not from the validation of an oracle value: every (task, worker) pair the control flow of assign_within_component/_assignment_heuristic can yield (GPU partition gpu_t/gpu_w, then cpu_t/cpu_w + idle gpu workers) is admissible, so the validation in the model never rejects what the code produces (c02_assign_admissible, c02_filter_never_rejects, c02_dispatch_by_control_flow). 'Not already busy' at full strength: a worker has at most one task in flight (c02_worker_single_flight); with non-atomic bodies an idle worker has nothing queued AND no body running, and no second body ever starts on a worker (c02_idle_means_free_running, c02_no_second_body); every input of a computable or dispatched task has really been published (c02_inputs_published). Worker side (Model/Worker.lean = runner/entrypoint.py wait loop): for every message interleaving the worker enters execute_sequence only after a DatasetPublished notice for every required dataset (c02_worker_waits; bookkeeping of availab_ds/missing_ds/waiting_ts: c02_worker_bookkeeping, c02_worker_avail_partial/_full_fails). Executor layer (Model/ExecLayer.lean = worker publish, executor fan-out and purge filter, data-server store, worker loop composed): at every entry into execute_sequence every required dataset had been completely WRITTEN into this host's shm before (c02_exec_inputs_arrived), is readable while the controller traffic keeps the C04 discipline (c02_exec_inputs_readable, _full_fails), every announcement anywhere names a dataset written before (c02_exec_announced_after_write), a worker only runs sequences addressed to it (c02_exec_named_worker), GPU worker i sees exactly device i (c02_gpu_own_device/_exclusive/_registered: facts about the two one-line models cudaFields/regGpu). 'Satisfies the GPU requirement' in the controller theorems is cl.hasGpu of the cluster the harness supplies; how that cluster arises is modelled too (Model/BridgeInit.lean = the registration loop of Bridge.__init__, Props/C02Bridge.lean): for ANY order, batching and repetition of the executors' registration messages the controller's Environment lists exactly the registered workers, once each, and believes worker i of host h to have a GPU iff i < CASCADE_GPU_COUNT(h) (c02_env_matches_registration), so a worker believed to have a GPU sees exactly one existing device, its own (c02_believed_gpu_has_device). Tie: the real Bridge.__init__ is fed the registration messages of the real Executor.__init__ (random batching, empty polls, repeats); its Environment (in insertion order) and routing table are compared with the model's and, independently, with the registered flags and the devices the workers see. ")
+LEVEL_NOTE = ("modelled, not verified: scheduler/api.py initialize/plan, scheduler/assign.py build_assignment + the pops of _assignment_heuristic, controller/act.py act/flush_queues, controller/notify.py notify/consider_*, impl.run loop skeleton (Model/Ctrl.lean, one Lean function per Python function). Abstracted as an oracle argument validated for admissibility by the model and supplied from what the real run chose: which (idle worker, computable task) pairs the distance/overhead heuristics and host->component migration pick per round, and which `available` host is the transmit source; theorems quantify over all admissible choices. Executors are abstract (Env + the non-atomic layer Model/CtrlN.lean; SimBridge mirrors both): a dispatched task starts once its inputs are in its host's store and publishes its outputs in index order, one step per output, interleaved with everything else; transmit/fetch read the source store; purge is immediate. Hypothesis WF: tasks topologically numbered, inputs duplicate-free, >=1 output per task, requested outputs exist, worker ids distinct; WF, WFC (for the component map the real precompute/initialize produced) and Feasible are DECIDED by the Lean drivers on every replayed input (wfCheck/wfcCheck/feasCheck with soundness lemmas, Lemmas/CtrlWFCheck.lean; an input outside them is reported as a harness failure), not assumed of the generator. Worker model: availab_ds/missing_ds/waiting_ts bookkeeping of entrypoint(), driven in-process with fake zmq/Memory; `required` is computed by the harness as the code does. Since the audit response: the (task, worker) pair is no longer only validated - theorems over the extended system (Model/Sched.lean) show that the modelled control flow of assign() yields admissible pairs only; SimBridge counts a started body as busy and starts one body per worker at a time; commands are compared with their publish sets. Executor layer (Model/ExecLayer.lean, Props/C02Exec.lean, tie harness/ekw/c02_exec.py: the real Executor, worker entrypoint and data-server handlers of one host driven in-process over fake sockets under generated schedules): fan-out of DatasetPublished/DatasetPurge, purge filter, CUDA_VISIBLE_DEVICES and 'announcement implies bytes are in shm' are modelled there; a handler of the executor and what a worker does between two pause points are atomic in that model (assumption), c02_exec_inputs_readable is conditional on the controller discipline C04 proves (not composed in Lean), reads inside execute_sequence and soundness of the purge filter are judged by the oracle only. Bridge.__init__ (Model/BridgeInit.lean): only the registration loop is modelled (sender.hosts keys, environment.workers); the 3-minute registration grace, the heartbeat table and cpu/memory_mb are checked by the harness oracle only (bridge-init-heartbeat-table, bridge-environment-cpu-or-memory).")
 TECHNIQUE = "Lean 4 inductive system invariant over a small-step transition system (controller micro-steps x adversarial executors) + worker wait-loop invariant; step-by-step state correspondence with the real controller (SimBridge) and the real worker entrypoint"
 LEAN_PROPS = ["EkwVerif.Props.C02"]
 LEAN_DRIVERS = ["Ctrl"]
@@ -34,8 +19,12 @@ def replay(payload):
     return ctrl_check.replay(payload, PROPERTY)
 
 
+def search(ctx, why):
+    ctrl_check.search(ctx, why, PROPERTY)
+
+
 # ----------------------------------------------------------------------------- worker side (runner/entrypoint.py wait loop)
-LEAN_PROPS = ["EkwVerif.Props.C02", "EkwVerif.Props.C02Worker", "EkwVerif.Props.C02Exec"]
+LEAN_PROPS = ["EkwVerif.Props.C02", "EkwVerif.Props.C02Worker", "EkwVerif.Props.C02Exec", "EkwVerif.Props.C02Bridge"]
 LEAN_DRIVERS = ["Ctrl", "C02W", "C02X"]
 
 
